@@ -101,18 +101,20 @@ structure CInv (e : Env K) (pt : Nat → P K) (k : Nat) (st : St K) (a b : EP K)
     ∨ (∃ i, 1 ≤ i ∧ i < k ∧ TriIn st.out (joinSet (jEP e pt i)) t)
 
 /-- one `line_to` keeps the invariant -/
-theorem fwStep_cinv {e : Env K} (hj : e.o.join ≠ .round) (hw0 : e.hwFw ≠ 0) {pt : Nat → P K} {k : Nat}
+theorem fwStep_cinv_gen {e : Env K} (hj : e.o.join ≠ .round) (hw0 : e.hwFw ≠ 0) {pt : Nat → P K} {k : Nat}
     {st : St K} {a b : EP K} (hI : CInv e pt k st a b)
+    (next : EP K) (hnp : next.position = pt (k + 1)) (hnfresh : Fresh e next)
+    (hnfp : next.foldPos = false) (hnfn : next.foldNeg = false)
     (hfar : pointsAreTooClose e.thr (pt k) (pt (k + 1)) = false)
     (hnf : noFoldAt e (pt (k - 1)) (pt k) (pt (k + 1))) :
-    ∃ b', CInv e pt (k + 1) (fwStep e st (linePt e (k + 1, pt (k + 1)))).1 b' (linePt e (k + 1, pt (k + 1))) := by
-  set next := linePt e (k + 1, pt (k + 1)) with hnext
+    ∃ b', CInv e pt (k + 1) (fwStep e st next).1 b' next
+      ∧ (st.buf.count = 3 → (fwStep e st next).1.firsts = st.firsts)
+      ∧ Ext st.out (fwStep e st next).1.out ∧ (fwStep e st next).2 = true := by
   have hk1 := hI.k1
-  have hnp : next.position = pt (k + 1) := rfl
   have hfar' : pointsAreTooClose e.thr b.position next.position = false := by rw [hI.bpos, hnp]; exact hfar
   have hnf' : noFoldAt e a.position b.position next.position := by rw [hI.apos, hI.bpos, hnp]; exact hnf
   -- the discrete invariant
-  obtain ⟨b', hT, hbp, _⟩ := fwStep_join_tris hj hI.t next (fresh_mk' e _ _ _) rfl rfl hfar' hnf'
+  obtain ⟨b', hT, hbp, _⟩ := fwStep_join_tris hj hI.t next hnfresh hnfp hnfn hfar' hnf'
   -- the shape of the join
   have hlast := hI.t.wf.lastTwo_last _ _ hI.t.two
   have hclose : st.tooClose e.thr next.position = false := by rw [tooClose_eq hlast]; exact hfar'
@@ -134,7 +136,7 @@ theorem fwStep_cinv {e : Env K} (hj : e.o.join ≠ .round) (hw0 : e.hwFw ≠ 0) 
   -- the join record is the one of `jEP`
   have hgeo1 : EP.geo (joinSidesFw e.ix a b next e.o.miterLimit e.hwFw) = EP.geo (jEP e pt k) := by
     unfold jEP
-    exact joinSidesFw_geo_congr e.ix _ _ (by rw [hI.apos]; rfl) (by rw [hI.bpos]; rfl) (by rw [hI.t.fresh.lj]; rfl) rfl
+    exact joinSidesFw_geo_congr e.ix _ _ (by rw [hI.apos]; rfl) (by rw [hI.bpos]; rfl) (by rw [hI.t.fresh.lj]; rfl) (by rw [hnp]; rfl)
       (by rw [hI.t.fresh.ps]; rfl) (by rw [hI.t.fresh.ns]; rfl)
   generalize hj1 : joinSidesFw e.ix a b next e.o.miterLimit e.hwFw = j1 at hS hgeo1
   have hgeo2 : EP.geo j2 = EP.geo (jEP e pt k) := by
@@ -167,7 +169,8 @@ theorem fwStep_cinv {e : Env K} (hj : e.o.join ≠ .round) (hw0 : e.hwFw ≠ 0) 
     rw [this, hcn, hc1] at hc
     have := WF.lastTwo_count _ _ hI.t.two
     omega
-  refine ⟨b', ⟨hT, by rw [hout]; exact hS.next, by rw [hbp, hI.bpos]; rfl, rfl, by omega, ?_, ?_, ?_, ?_, ?_, ?_, ?_⟩⟩
+  refine ⟨b', ⟨hT, by rw [hout]; exact hS.next, by rw [hbp, hI.bpos]; rfl, hnp, by omega, ?_, ?_, ?_, ?_, ?_, ?_, ?_⟩,
+    fun h3 => by rw [hfirsts, h3]; rfl, by rw [hout]; exact hS.ext, by rw [fwStep_eq_join hclose hI.t.two]⟩
   · rw [hcnt, if_neg (by omega)]
   · intro h; omega
   · intro _
@@ -242,6 +245,14 @@ theorem fwStep_cinv {e : Env K} (hj : e.o.join ≠ .round) (hw0 : e.hwFw ≠ 0) 
         unfold joinSet
         rw [← geo_sPrev_neg hgeo1, ← geo_sNext_neg hgeo1, ← geo_sPrev_pos hgeo1, ← geo_sNext_pos hgeo1]
         exact hq
+
+theorem fwStep_cinv {e : Env K} (hj : e.o.join ≠ .round) (hw0 : e.hwFw ≠ 0) {pt : Nat → P K} {k : Nat}
+    {st : St K} {a b : EP K} (hI : CInv e pt k st a b)
+    (hfar : pointsAreTooClose e.thr (pt k) (pt (k + 1)) = false)
+    (hnf : noFoldAt e (pt (k - 1)) (pt k) (pt (k + 1))) :
+    ∃ b', CInv e pt (k + 1) (fwStep e st (linePt e (k + 1, pt (k + 1)))).1 b' (linePt e (k + 1, pt (k + 1))) := by
+  obtain ⟨b', h, _⟩ := fwStep_cinv_gen hj hw0 hI _ rfl (fresh_mk' e _ _ _) rfl rfl hfar hnf
+  exact ⟨b', h⟩
 
 /-- `(i, pt i)` for `i = k, …, k + m - 1`: the points the `line_to` events carry -/
 def restPts (pt : Nat → P K) (k m : Nat) : List (Nat × P K) := (List.range' k m).map (fun i => (i, pt i))
